@@ -372,6 +372,15 @@ func addrOracle(r *rand.Rand, n int, tier string, infile string) (cases int, fai
 		if again := addrParseDo(g, back); again != got {
 			fail("text %q parses to %s, which marshals to %q, which parses to %s", text, got, back, again)
 		}
+		// C17: the text of a peer identity is canonical (43 symbols, one text per identity): when an address with an
+		// identity layer parses, the identity part of the text is the encoding of the identity it parsed to — text that
+		// is not a valid encoding is rejected instead of yielding some other identity
+		if g.kind == 'i' || g.kind == 'k' {
+			i, j := bytes.IndexByte(text, '@'), bytes.IndexByte(back, '@')
+			if i >= 0 && j >= 0 && !bytes.Equal(text[:i], back[:j]) {
+				fail("address text %q was accepted and parsed to the identity %q, which its identity part %q does not encode", text, back[:j], text[:i])
+			}
+		}
 	}
 	for _, op := range readOps(infile) {
 		switch op[0] {
